@@ -169,7 +169,8 @@ class Walker:
             if isinstance(t, model.Apply) and t.symbol == "core.order_hint.key" and len(t.args) == 1:
                 self.keys[hn.idx] = lit(t.args[0])
         want_meta = json.loads(json.dumps(h[hn].metadata))
-        if metas != want_meta:
+        # as JSON values: true, 1 and 1.0 are three different values (Python's == would identify them)
+        if json.dumps(metas, sort_keys=True) != json.dumps(want_meta, sort_keys=True):
             self.fail("metadata", where, f"node {hn.idx}: {metas} vs {want_meta}")
         # symbols
         if kind in ("FuncDefn", "FuncDecl"):
